@@ -414,6 +414,57 @@ def use_repository(backend, key, password, cfg, scratch, rng, tag):
         shutil.rmtree(out, ignore_errors=True)
 
 
+def use_keys_together(backend, keys, pws, cfg, scratch, rng, tag):
+    """All holders of a key use ONE repository: first every key (a fresh Repository object each) takes a snapshot of
+    its own small tree, then every key restores - once without any filter, once filtered by its own snapshot's name -
+    and must get its own files back byte-identically, whatever the other keys have stored.  Returns [(key index, text)]."""
+    problems, srcs, names = [], [], []
+    for i, (key, pw) in enumerate(zip(keys, pws)):
+        src = small_tree(cfg, scratch, rng, f'{tag}_k{i}')
+        srcs.append(src)
+        repo = Repository(backend, concurrent=2, cache_directory=None)
+
+        async def snap():
+            await repo.unlock(password=pw, key=key)
+            out = await repo.snapshot(paths=[src])
+            await repo.close()
+            return out.name
+        try:
+            names.append(run_async(snap))
+        except BaseException as e:  # noqa
+            if isinstance(e, (KeyboardInterrupt, SystemExit, MemoryError)):
+                raise
+            names.append(None)
+            problems.append((i, f'snapshot: {exc_name(e)}: {e}'[:160]))
+    for i, (key, pw) in enumerate(zip(keys, pws)):
+        if names[i] is None:
+            continue
+        for how, regex in (('unfiltered restore', None), ('restore of its own snapshot', names[i])):
+            out = scratch / f'out{tag}_k{i}_{0 if regex is None else 1}'
+            repo = Repository(backend, concurrent=2, cache_directory=None)
+
+            async def restore():
+                await repo.unlock(password=pw, key=key)
+                await repo.restore(path=out, snapshot_regex=regex)
+                await repo.close()
+            try:
+                run_async(restore)
+                want = tree_bytes(srcs[i])
+                got = tree_bytes(out / str(srcs[i].resolve()).lstrip('/')) if out.exists() else {}
+                if want != got:
+                    problems.append((i, f'{how} (repository holds snapshots of {len(keys)} keys): restored tree differs from the source '
+                                        f'(missing {sorted(set(want) - set(got))})'))
+            except BaseException as e:  # noqa
+                if isinstance(e, (KeyboardInterrupt, SystemExit, MemoryError)):
+                    raise
+                problems.append((i, f'{how} (repository holds snapshots of {len(keys)} keys): {exc_name(e)}: {e}'[:200]))
+            finally:
+                shutil.rmtree(out, ignore_errors=True)
+    for src in srcs:
+        shutil.rmtree(src, ignore_errors=True)
+    return problems
+
+
 def real_settings_for(case):
     """Settings dict the real init receives for a case (nested as is; CLI form through the real parsers)."""
     if 'args' not in case:
@@ -725,11 +776,7 @@ def run_chain(cipher, ops, kdf_choice, same_pw, ctx, tag):
                     privates.append(f'<locked {i}>')
         matrix.append(row)
     cfg = res.config
-    problems = []
-    for i in range(n):
-        p = use_repository(be, keys[i], pws[i], cfg, ctx.scratch, ctx.rng, f'{tag}_{i}')
-        if p is not None:
-            problems.append((i, p))
+    problems = use_keys_together(be, keys, pws, cfg, ctx.scratch, ctx.rng, tag)
     # a key must not open with a password that was never anybody's
     repo = Repository(be, concurrent=1, cache_directory=None)
     stranger = []
